@@ -191,7 +191,11 @@ func (ck *Check) acceptSetOf(rule string) *acceptSet {
 	a := ck.A
 	fn := a.Validate
 	ctx := ck.P.NewCtx(fn)
-	as := &acceptSet{ctx: ctx, pure: ck.idempotentAccessors("C16.R3")}
+	accRule := "C16.R3"
+	if !strings.HasPrefix(rule, "C16") {
+		accRule = rule
+	}
+	as := &acceptSet{ctx: ctx, pure: ck.idempotentAccessors(accRule)}
 	// the closure
 	var clo *ssa.MakeClosure
 	for _, b := range fn.Blocks {
@@ -339,9 +343,13 @@ func checkC16(ck *Check) {
 	ck.decoderAndKeys("C16.R5")
 }
 
-func (ck *Check) invariants(rule string, as *acceptSet) {
+func (ck *Check) invariants(rule string, as *acceptSet, only ...string) {
 	a := ck.A
 	ctx := as.ctx
+	want := map[string]bool{}
+	for _, k := range only {
+		want[k] = true
+	}
 	opt := func(tag string) *Term {
 		f := fieldByJSON(a.TOptions, tag)
 		if f == nil {
@@ -356,6 +364,9 @@ func (ck *Check) invariants(rule string, as *acceptSet) {
 	}
 	zero := zeroTerm(types.Typ[types.Int])
 	lin := func(key, text string, pc *Formula, facts ...LinFact) {
+		if len(want) > 0 && !want[key] {
+			return
+		}
 		okv, why, err := ctx.EntailsLinear(pc, facts)
 		if err != nil {
 			ck.undecided(rule, "invariant:"+key, ck.P.position(a.Validate.Pos()), funcID(a.Validate), text, err.Error())
@@ -384,6 +395,9 @@ func (ck *Check) invariants(rule string, as *acceptSet) {
 		LinFact{A: zero, B: minN, K: 0, Text: "0 ≤ min"}, LinFact{A: minN, B: maxN, K: -1, Text: "min < max"})
 	// helper predicates are applied to the right option
 	for _, h := range []struct{ fn, tag string }{{"validTaintEffect", "taint_effect"}, {"validAWSLifecycle", "aws/lifecycle"}, {"validMaxNodeAgeDuration", "max_node_age"}} {
+		if len(want) > 0 && !want[h.fn] {
+			continue
+		}
 		hf := map[string]*ssa.Function{"validTaintEffect": a.ValidEffect, "validAWSLifecycle": a.ValidLifecycle, "validMaxNodeAgeDuration": a.ValidMaxAge}[h.fn]
 		if hf == nil {
 			ck.lost(rule, h.fn, "helper not found")
